@@ -84,16 +84,43 @@ let impl_now (l : string) : int option =
   | _ -> None
 
 let variant = ref repaired
+(* tokens of the implementation's line after "now=..." up to ";" *)
+let impl_tokens (l : string) : string array =
+  match tokens l with
+  | _ :: r -> let rec upto = function [] -> [] | ";" :: _ -> [] | x :: t -> x :: upto t in Array.of_list (upto r)
+  | [] -> [||]
+(* the admissible verdict: echo the implementation's answer when the model allows it, else the model's *)
+let adm_verdict (t : tuple) (m : bool) (impl : char option) : string =
+  match impl with
+  | Some ('0' | '1' as ch) -> let i = (ch = '1') in
+    if admissible_verdict t m i then String.make 1 ch else (if m then "1" else "0")
+  | _ -> if m then "1" else "0"
+let ids_of (tok : string) (pfx : string) : int list =
+  (* "conc:1+2+3" / "ovl:1+2/g2.2" -> [1;2;3] *)
+  let n = String.length pfx in
+  if String.length tok < n || String.sub tok 0 n <> pfx then [] else
+  let body = String.sub tok n (String.length tok - n) in
+  let body = match String.index_opt body '/' with Some i -> String.sub body 0 i | None -> body in
+  List.filter_map int_of_string_opt (String.split_on_char '+' body)
+let choice_of_tok (tok : string) : choice =
+  match String.split_on_char ':' tok with
+  | "pads" :: sid :: _ -> (match int_of_string_opt sid with Some k -> Chose (n_of_int k) | None -> Policy)
+  | ["none"] -> Refused
+  | _ -> Policy
+let nth_choice (ids : int list) (i : int) : choice =
+  match List.nth_opt ids i with Some k -> Chose (n_of_int k) | None -> Refused
 
 (* ---- ck ---- *)
-let do_ck toks now =
+let do_ck toks now il =
   match toks with
   | secret :: ttl :: mac :: sv :: cv :: qs ->
     let h = fun d -> ns_of_ints (hmac_sha256 (ints_of_hex secret) (List.map int_of_n d)) in
     let forge dt t = generate h (n_of_int (wrap32 (now - dt))) t in
     let c0 = generate h (n_of_int now) (mk_tuple mac sv cv) in
     let now_ns = z_of_int (now * 1000000000 + 500000000) in
-    let r = List.map (fun q ->
+    let ibits = match List.filter (fun t -> String.length t > 2 && String.sub t 0 2 = "r=") (tokens il) with
+      | t :: _ -> String.sub t 2 (String.length t - 2) | [] -> "" in
+    let r = List.mapi (fun qi q ->
       match split '/' q with
       | [src; mut; vm; vs; vc] ->
         let c = if src = "g" then c0 else
@@ -101,19 +128,22 @@ let do_ck toks now =
            | [_; dt; fm; fs; fc] -> forge (int_of_string dt) (mk_tuple fm fs fc)
            | _ -> []) in
         let c = ns_of_ints (mutate (List.map int_of_n c) mut) in
-        if validate h (z_of_int (int_of_string ttl)) now_ns c (mk_tuple vm vs vc) then "1" else "0"
+        let t = mk_tuple vm vs vc in
+        adm_verdict t (validate h (z_of_int (int_of_string ttl)) now_ns c t)
+          (if qi < String.length ibits then Some ibits.[qi] else None)
       | _ -> "?") qs in
     Printf.sprintf "now=%d c0=%s r=%s" now (hex_of_bytes c0) (String.concat "" r)
   | _ -> "badline"
 
 (* ---- sq: a history on one CookieManager (state: the lifetime; the clock advances with W) ---- *)
-let do_sq toks now =
+let do_sq toks now il =
   match toks with
   | secret :: ttl :: steps ->
     let h = fun d -> ns_of_ints (hmac_sha256 (ints_of_hex secret) (List.map int_of_n d)) in
     let ttl = ref (z_of_int (int_of_string ttl)) and cur = ref now and gens = ref [] in
     let cm o = let (t', x) = cm_step h !ttl o in ttl := t'; x in
-    let outs = List.map (fun st ->
+    let itok = impl_tokens il in
+    let outs = List.mapi (fun si st ->
       match split '/' st with
       | ["G"; m; sv; cv] ->
         (match cm (CGen (n_of_int !cur, mk_tuple m sv cv)) with
@@ -127,8 +157,10 @@ let do_sq toks now =
               | [_; dt; fm; fs; fc] -> generate h (n_of_int (wrap32 (now - int_of_string dt))) (mk_tuple fm fs fc)
               | _ -> []) in
         let c = ns_of_ints (mutate (List.map int_of_n c) mut) in
-        (match cm (CVal (z_of_int (!cur * 1000000000 + 500000000), c, mk_tuple m sv cv)) with
-         | CVerdict true -> "1" | CVerdict false -> "0" | _ -> "MODELBUG")
+        let t = mk_tuple m sv cv in
+        let iv = if si < Array.length itok && String.length itok.(si) = 1 then Some itok.(si).[0] else None in
+        (match cm (CVal (z_of_int (!cur * 1000000000 + 500000000), c, t)) with
+         | CVerdict b -> adm_verdict t b iv | _ -> "MODELBUG")
       | ["L"; n] -> ignore (cm (CSetTTL (z_of_int (int_of_string n)))); "-"
       | ["W"; k] -> cur := now + int_of_string k; "-"
       | _ -> "badstep") steps in
@@ -148,7 +180,7 @@ let do_tags toks =
 
 (* ---- tb ---- *)
 let strip pfx s = let n = String.length pfx in String.sub s n (String.length s - n)
-let do_tb toks now =
+let do_tb toks now il =
   match toks with
   | secret :: ttl :: g :: occ :: nx :: ";" :: ops ->
     let h = fun d -> ns_of_ints (hmac_sha256 (ints_of_hex secret) (List.map int_of_n d)) in
@@ -207,10 +239,13 @@ let do_tb toks now =
       | Some (OReach u) -> Printf.sprintf "reach:u%d" (int_of_n u)
       | Some (ORestored u) -> Printf.sprintf "restored:u%d" (int_of_n u)
       | Some (OSynced u) -> Printf.sprintf "synced:u%d" (int_of_n u) in
-    let outs = List.map (fun tok ->
+    let itok = impl_tokens il in
+    let outs = List.mapi (fun oi tok ->
+      let itk = if oi < Array.length itok then itok.(oi) else "" in
       match split '/' tok with
       | ["I"; m; sv; cv] -> show (do_step (PADI (mk_tuple m sv cv))) None
-      | ["R"; m; sv; cv; spec] -> let t = mk_tuple m sv cv in show (do_step (PADR (t, ns_of_ints (tags spec)))) (Some t)
+      | ["R"; m; sv; cv; spec] -> let t = mk_tuple m sv cv in
+        show (do_step (PADR (t, ns_of_ints (tags spec), choice_of_tok itk))) (Some t)
       | ["T"; m; sv; cv; sid] -> show (do_step (PADT (mk_tuple m sv cv, n_of_int (int_of_string sid)))) None
       | ["S"; m; sv; cv; sid; k] when String.length k > 5 && String.sub k 0 5 = "name:" ->
         show (do_step (SETATTR (mk_tuple m sv cv, n_of_int (int_of_string sid),
@@ -247,18 +282,22 @@ let do_tb toks now =
           | Some (OSynced u) -> nonbulk := (int_of_n u, int_of_string sid, t) :: !nonbulk; Printf.sprintf "u%d" (int_of_n u)
           | _ -> "none" in
         let ck = List.map int_of_n (generate h (n_of_int now) rt) in
-        let r2 = match do_step (PADR (rt, ns_of_ints (tag 0x0104 ck))) with
+        let jc = match String.split_on_char ':' itk with
+          | "join" :: _ :: sid2 :: _ -> (match int_of_string_opt sid2 with Some k -> Chose (n_of_int k) | None -> Refused)
+          | _ -> Policy in
+        let r2 = match do_step (PADR (rt, ns_of_ints (tag 0x0104 ck), jc)) with
           | Some (OPads (s2, u)) -> nonbulk := (int_of_n u, int_of_n s2, rt) :: !nonbulk; Printf.sprintf "%d:u%d" (int_of_n s2) (int_of_n u)
           | _ -> "none" in
         if !dead then "INADMISSIBLE" else "join:" ^ r1 ^ ":" ^ r2
       | ["P"; n; sv] ->
         let n = int_of_string n in
+        let pids = ids_of itk "ovl:" in
         let uids = ref [] in
         for i = 0 to n - 1 do
           let mac = [10;0;0;0;(i lsr 8) land 255; i land 255] in
           let t : tuple = ((ns_of_ints mac, n_of_int (int_of_string sv)), N0) in
           let ck = List.map int_of_n (generate h (n_of_int now) t) in
-          match do_step (PBEGIN (t, ns_of_ints (tag 0x0104 ck))) with
+          match do_step (PBEGIN (t, ns_of_ints (tag 0x0104 ck), (if itk = "" then Policy else nth_choice pids i))) with
           | Some (OPend (_, u)) -> uids := u :: !uids
           | _ -> ()
         done;
@@ -272,12 +311,13 @@ let do_tb toks now =
         "ovl:" ^ String.concat "+" (List.map string_of_int (List.sort compare !sids)) ^ Printf.sprintf "/g%d.%d" k k
       | ["C"; n; sv] ->
         let n = int_of_string n in
+        let cids = ids_of itk "conc:" in
         let sids = ref [] in
         for i = 0 to n - 1 do
           let mac = [6;0;0;0;(i lsr 8) land 255; i land 255] in
           let t : tuple = ((ns_of_ints mac, n_of_int (int_of_string sv)), N0) in
           let ck = List.map int_of_n (generate h (n_of_int now) t) in
-          match do_step (PADR (t, ns_of_ints (tag 0x0104 ck))) with
+          match do_step (PADR (t, ns_of_ints (tag 0x0104 ck), (if itk = "" then Policy else nth_choice cids i))) with
           | Some (OPads (sid, _)) -> sids := int_of_n sid :: !sids; incr conc_extra
           | _ -> ()
         done;
@@ -315,9 +355,9 @@ let () =
         match tokens line with
         | [] -> ""
         | "tags" :: r -> do_tags r
-        | "ck" :: r -> (match impl_now il with Some now -> do_ck r now | None -> "noclock")
-        | "sq" :: r -> (match impl_now il with Some now -> do_sq r now | None -> "noclock")
-        | "tb" :: r -> (match impl_now il with Some now -> do_tb r now | None -> "noclock")
+        | "ck" :: r -> (match impl_now il with Some now -> do_ck r now il | None -> "noclock")
+        | "sq" :: r -> (match impl_now il with Some now -> do_sq r now il | None -> "noclock")
+        | "tb" :: r -> (match impl_now il with Some now -> do_tb r now il | None -> "noclock")
         | _ -> "badline"
       with ex -> "driver-exception " ^ Printexc.to_string ex in
     print_endline out) lines
